@@ -142,6 +142,14 @@ func (b Beta) Survival(x float64) float64 {
 	case x >= 1:
 		return 0
 	}
+	// Compute the smaller tail directly and the larger one as its complement:
+	// below 1/2, 1-x is rounded and I_{1-x}(β, α) cannot see a small x whose
+	// CDF is nevertheless far from zero (α < 1).
+	if x < 0.5 {
+		if cdf := mathext.RegIncBeta(b.Alpha, b.Beta, x); cdf <= 0.5 {
+			return 1 - cdf
+		}
+	}
 	return mathext.RegIncBeta(b.Beta, b.Alpha, 1-x)
 }
 
